@@ -153,3 +153,12 @@ package store
 //@   # with it every listed resource is examined once, in order, up to the first failure
 //@   ghost exit :: assert listed: imp(old(o.ar != nil), old(revn) <= revn && revn <= old(revn) + len(rids))
 //@   loop 1 invariant -1 <= rangeindex && rangeindex < len(rids) + 0 && revn == old(revn) + rangeindex + 1 && o != nil && o.s != nil && muxOK(o.s.Mux)
+//@
+//@ # ================================================================ id transformer (C17): resource ids are built and read with the pattern operations
+//@ props C17
+//@ func IDTransformer$1(rid string, pathParams map[string]string) (id string)
+//@   ensures lookup: imp(hasKey(pathParams, tagName), same(id, pathParams[tagName]))
+//@ func IDTransformer$2(id string, v interface{}, p res.Pattern) (rid string)
+//@   modifies ghost.nrepl, alloc
+//@   # the resource id is the pattern with the tag replaced by Pattern.ReplaceTag (token-wise), in one pass
+//@   ensures by.pattern: nrepl == old(nrepl) + 1
